@@ -133,6 +133,8 @@ fn sfnt_layout_strategy() -> impl Strategy<Value = SfntLayout> {
             prop_oneof![
                 2 => Just((0u32, 0u32, 0u32)),
                 1 => (any::<u32>(), any::<u32>()).prop_map(|(l, o)| (0x44534947u32, l, o)),
+                // (MAX, MAX): the trailing bytes of the file are the DSIG block (resolved by the encoder)
+                1 => Just((0x44534947u32, u32::MAX, u32::MAX)),
             ],
             prop_oneof![4 => Just(0u8), 1 => 1u8..40],
         ),
